@@ -13,7 +13,7 @@
 From Coq Require Import List NArith ZArith Arith Bool Permutation.
 Import ListNotations.
 Require Import Aurora.Consts Aurora.C20.Model.
-Require Import Aurora.C21.Model Aurora.C21.Abs Aurora.C21.Heap Aurora.C21.Refine Aurora.C21.SetSem Aurora.C21.Iter Aurora.C21.Proofs.
+Require Import Aurora.C21.Model Aurora.C21.Abs Aurora.C21.Heap Aurora.C21.Refine Aurora.C21.SetSem Aurora.C21.Iter Aurora.C21.Proofs Aurora.C21.Regress.
 
 Definition MaxPO : N := Z.to_N Consts.boson_MaxPO.
 Definition po (base : addr) (maxBins : nat) : addr -> option nat := po_of MaxPO base maxBins.
@@ -129,6 +129,19 @@ Theorem C21_snapshot_safe_partial : forall grow base maxBins, 1 <= maxBins <= 25
   exists w, wlog s2 = wlog s1 ++ w /\ forall j, In (h_arr h, j) w -> h_len h <= j.
 Proof. intros grow base maxBins Hb. exact (snapshot_safe grow _ maxBins (po_of_ok MaxPO base maxBins Hb)). Qed.
 Print Assumptions C21_snapshot_safe_partial.
+
+(** regression witness (seeded/C21-3), NOT about the code under test: with a
+    [Remove] that re-slices in place when the removed peer is the last element
+    of its bin ([remove_trunc]), the discipline above fails — bin {a,b,c} (capacity
+    3), header copied, then Remove(c), Remove(b), Add(c), Add(b): the copied header
+    now reads a, c, b and an in-place write landed at index 1 < 3 *)
+Theorem C21_truncating_remove_refuted :
+  exists s1 s2 h,
+    rw_s1 = Ok s1 /\ rw_s2 = Ok s2 /\ nth_error (bins s1) 2 = Some h /\
+    elems (heap s1) h = [rw_a; rw_b; rw_c] /\ elems (heap s2) h = [rw_a; rw_c; rw_b] /\
+    exists w j, wlog s2 = wlog s1 ++ w /\ In (h_arr h, j) w /\ j < h_len h.
+Proof. exact truncating_remove_refuted. Qed.
+Print Assumptions C21_truncating_remove_refuted.
 
 (** non-vacuity: a concrete history (batched add with a repeated address,
     capping at the last bin, a swap-remove, an in-place append) is reachable and
